@@ -3,7 +3,7 @@
 import json, os
 V = os.path.dirname(os.path.abspath(__file__))
 rows = []
-WAVES = ['1','2','3','4','5','6','7','8','9','10']
+WAVES = ['1','2','3','4','5','6','7','8','9','10','11']
 for d in sorted(os.listdir(os.path.join(V, 'seeded'))):
     m = json.load(open(os.path.join(V, 'seeded', d, 'meta.json')))
     import re as _re
@@ -19,7 +19,7 @@ total = len(rows); missed = sum(1 for r in rows if r[3])
 out = []
 out.append('''## 9. Seeded changes written by independent sub-agents
 
-Ten waves of fresh sub-agents, each given only the text of one property (from
+Eleven waves of fresh sub-agents, each given only the text of one property (from
 wave 3 on additionally a one-line hint naming clauses of that same statement
 to aim at, different per wave; in waves 6 and 7 the whole property record and
 one assigned mechanism from its anchors to break, a different one per wave; in
@@ -27,7 +27,7 @@ wave 8 the property record and the instruction to hide the break in an
 uncommon corner of the quantified space - a size, an option value, a kind of
 value, a repeated call; in wave 9 the instruction that the break must need a
 fault landing at one particular point of an operation, or a multi-step history
-on one object; in wave 10, for eight properties, that it must only show on a
+on one object; in waves 10 and 11 that it must only show on a
 second cycle of the same object) and a scratch worktree of `/repo`, produced one
 change each that breaks the property, compiles and passes the existing tests,
 together with a demonstration test. Each was kept only after `import_seed.sh`
@@ -54,7 +54,7 @@ showed that one earlier repair had made an existing test flaky (row 14).
 | wave | change | property | verdict of the owning check (quick tier) |
 |---|---|---|---|''' % (' + '.join(str(per[w][0]) for w in WAVES), total, total - missed, missed,
          ', '.join('wave %s: %d' % (w, per[w][1]) for w in WAVES),
-         ('%d exception%s (%s: a pure data race with no effect at the granularity the simulator interleaves, reported by the race build of C13 instead)' % (len(left), '' if len(left) == 1 else 's', ', '.join('`%s`' % d for d in left))) if left else 'no exception',
+         ('%d exception%s (%s): one is a pure data race with no effect at the granularity the simulator interleaves (reported by the race build of C13 instead), the others need a reuse of an object that the owning property does not quantify over - a second Run of one Worker, a pool restarted by `srv.Daemon`, a WaitGroup shared across rounds (reported by C14) - and are explained in their rows' % (len(left), '' if len(left) == 1 else 's', ', '.join('`%s`' % d for d in left))) if left else 'no exception',
          total - len(left), total))
 for wave, d, prop, m, main, others in rows:
     out.append('| %s | `%s` | %s | %s |' % (wave, d, prop, main.replace('|', '\\|')))
@@ -99,7 +99,9 @@ files):
   tasks (C01) - wave 8; no `Subscribe` call whose own context ends in flight
   (C08), no race-driver call whose own context ends mid-call (C13) - wave 9;
   nobody looking at a service's result before its last phase (C10, wave 10:
-  a timed waiter through `Service.Worker()`).
+  a timed waiter through `Service.Worker()`); fan-in sources always filled
+  round-robin, so never an empty one among the first (C01, wave 11); container
+  conversion stages always over a fresh container (C02, wave 11).
 * **oracle narrower than the statement**: only calls *invoked after* the last
   `Limit` execution were compared with its result (C15); under removals the
   iterator was only required not to panic and to return on Close/cancel, not
